@@ -49,6 +49,26 @@ pub fn run(thorough: bool) -> Vec<Part> {
         for (v, _) in &st.violations {
             part.violations.push(v.clone());
         }
+        // the same alphabet continued past parse errors (over-limit declarations, stray CR) in
+        // lock-step with a fresh connection: interim responses after an error must be those a
+        // fresh connection would queue
+        {
+            let mut pcs = alphabet(thorough);
+            // more ways to fail and more alignments of what a failed read leaves in the buffer
+            pcs.push(piece("h_nocolon", Class::Header, b"nocolon\r\n"));
+            pcs.push(piece("h_xa8", Class::Header, b"X-a: 1\r\n"));
+            pcs.push(piece("h_xb9", Class::Header, b"X-bb: 2\r\n"));
+            pcs.push(piece("rl_bad_version", Class::ReqLine, b"PUT /e HTTP/1.2\r\n"));
+            let mut cfg2 = Cfg::base("C13", "expect-alphabet-after-errors", pcs, 40);
+            cfg2.continue_after_error = true;
+            cfg2.empty_reads = false;
+            let limits = Limits { max_states: 4_000_000, max_secs: if thorough { 1500.0 } else { 60.0 }, ..Default::default() };
+            let st2 = bfs(&cfg2, &limits, workers());
+            record(&mut part, "expect-alphabet-after-errors", &st2);
+            for (v, _) in &st2.violations {
+                part.violations.push(v.clone());
+            }
+        }
         parts.push(part);
     } else {
         // R-build: several Expect requests in one buffer (not possible with the 32-byte buffer),
